@@ -1,5 +1,101 @@
-(* WrapProofs.v -- C17, embedding step: a statechart placed under a fresh compound root behaves as on its own.
-   (header completed at the end of the development) *)
+(* WrapProofs.v -- C17 (second sentence), the EMBEDDING step: a statechart c placed under a fresh compound
+   root h (`wrap c h`, the shape of the host `hroot > plug` of the harness after copy_from_statechart) behaves
+   inside its host exactly as c does on its own.  (CopyProofs.C17_copy_structure: the host subtree is the renamed
+   image of the guest; C17Proofs.C17_equivariance_run: renaming; this file: the new root.)
+
+   DEFINITIONS
+     wrap c h          c with the new state h = CompoundState(h, initial = root c), no code, no contracts, no
+                       transitions.  Dictionary order "host built first": _states = h :: c's; _parent = (h, None) ::
+                       c's with the root's entry overwritten IN PLACE by (r, Some h) (dset); _children =
+                       (None, [h]) :: (Some h, [r]) :: c's entries without the key None; _transitions = c's
+                       (indices unchanged).  The theorems do not depend on this order: every query goes through
+                       lookup, and h is the FIRST key with parent None whatever follows.
+     wrap_state h t0   interpreter state: configuration h :: cfg (h was entered first and is never removed),
+                       _entry_time / _idle_time get (h, t0) in front, everything else unchanged.
+     wrap_call h       what the evaluator sees: cl_config gains h at its sorted position (insert str_leb h).
+     wrap_obs / wrap_mstate h t0   observation trace mapped by wrap_call (meta events are IDENTICAL: same
+                       listener calls, one emit, one listener state).
+     K c n             n is a registered state of c (state_for c n <> None).
+     wrap_ok c r h     the hypotheses on c (19 clauses, all decidable: wrap_okb, wrap_okb_sound),
+                       incomparable with C02Proofs.wf_chart_b: root c = Some r, parent r = None, r registered;
+                       h <> "", h not registered; no parent is ""; ancestors have smaller depth (C01's hypothesis,
+                       anc_depth_okb); every registered state other than r has r among its ancestors; ancestors /
+                       children of registered states, initial states of compound states, default memories of history
+                       states, sources and targets of transitions are registered; r is nobody's child; s_name st = n;
+                       |descendants_for c n| <= |_states| (the breadth-first search does not run out of fuel);
+                       r is neither final nor a history state; NO FINAL STATE IS A CHILD OF r.
+                       (No orthogonal-region, history-parent or transition-crossing clause of section 2 is needed.)
+     wrap_inv c s      side condition on the state of c: initialised, configuration and values of the history memory
+                       are registered states.  Preserved by every operation, failing ones included.
+     root_active r s   r is in the configuration.  Holds after every execute_once that returns normally.
+     wrap_alive        root_active at the start of every OpStep of a history.
+
+   MAIN THEOREMS (all Qed, closed under the global context)
+     C17_wrap_step     wrap_ok c r h, evaluator blind to h (exec_code' (wrap_call h cl) x = exec_code cl x, same for
+                       eval_code; two evaluators allowed as in C17Proofs), ANY listeners, wrap_inv s, root_active s:
+                       execute_once on wrap c h from wrap_mstate h t0 s returns EXACTLY the result of c from s (same
+                       option macrostep: events, transition indices, entered / exited lists, sent events; or the same
+                       error) and the post-state wrap_mstate h t0 s' (same queues, context, memory, listener state;
+                       trace mapped by wrap_obs); wrap_inv s'; and root_active s' when the result is not an error.
+                       Same fuel on both sides.
+     C17_wrap_queue    the same for queue.
+     C17_wrap_run      every history (OpQueue / OpStep) with wrap_alive: outcomes equal, final states related.
+     C17_wrap_run_errfree   wrap_alive follows from root_active s when no execute_once but possibly the last one
+                       raises (alive_errfree).
+     C17_wrap_init     the first execute_once (uninitialised interpreter, empty configuration, c's step returns
+                       normally, r <> "", listeners ignore `state entered h`): wrap c h with fuel S f performs the
+                       micro step [enter h] followed by exactly the micro steps of c with fuel f (add_h), ends in
+                       wrap_state h now of c's post-state with wrap_inv and root_active, same listener state; its
+                       trace is c's new observations mapped by wrap_obs with the two observations of the entry of h
+                       (init_extra: ObMeta (MEntered h), ObExec of the empty entry code of h) buried right above
+                       `step started`.
+     Generic forms (Section Wrap): wrap_step_gen, wrap_queue_gen, wrap_run_gen, wrap_init_gen are parametric in the
+     treatment of the OLD part of the trace (ft, Tdom with ft (o :: tr) = wrap_obs h o :: ft tr): map wrap_obs for the
+     step / run theorems, ft_init (two buried observations) for the initial step; so wrap_run_gen with ft_init
+     continues a run after C17_wrap_init.
+
+   COMMUTATION LEMMAS (Section Wrap; `_w`)  one for every function of the model:
+     Chart   state_for kind_of parent_for children_for root ancestors_for (anc_w: h is APPENDED) depth_for (+1)
+             bfs descendants_for least_common_ancestor (lca_w: None becomes Some h, `lift`) leaf_for itransitions
+     Interp  considered last_before entered_path stays_below check_pair check_against check_pairs trans_order_leb
+             exit_order_leb enter_order_leb create_step create_steps stab_for_leaf stab_for_orthogonal
+             create_stabilization_step configuration mk_call states_for; monadic (logical relation EQV R m' m with a
+             RELATION R on results, EQVr = EQV + root_active before and after): raise_meta raise_event run_code
+             eval_cond eval_conds contract state_contract trans_contract eval_guards sel_priorities sel_sources
+             (the `ignored` lists differ by occurrences of h: ign_rel) sel_depths (depth labels shifted by one:
+             sorted_groupby_sh) sel_eventness select_transitions sort_transitions compute_steps record_history
+             exit_state enter_state process_transition apply_step stabilize run_steps consume_event check_invariants
+             execute_once queue.
+     Reused: C01Proofs.C01_selection (a selected transition of the root excludes every other selected source:
+     select_post / nomix), C02Proofs.anc_some / anc_ind / last_before_spec / entered_spec / apply_step_inv,
+     FrameLib footprints, C17Proofs sort / group lemmas and run_ops.
+
+   BEHAVIOUR DIFFERENCES FOUND between c and wrap c h (hypotheses that cannot be dropped)
+     (a) C17_wrap_step_final_child_refuted: for a well-formed chart (wf_chart_b) whose root has a FINAL child the step
+         statement is false: in c the final child empties the configuration (micro step exits [f; r], the
+         interpreter is final); under h the same state is an ordinary final state, nothing is exited
+         (final_child_difference).  The harness excludes these charts (root_has_final_child).
+     (b) check_pair: for two selected transitions one of which leaves the root, c raises StatechartError
+         (state_for(None)) where wrap c h would raise NonDeterminismError (the LCA is h).  Unreachable: the
+         selection never returns such a pair (select_post), so no hypothesis is needed.
+     (c) C17_wrap_run_root_active_needed: an exception in the middle of a step that exits the root (action of an
+         external self-loop on the root fails) leaves c with an EMPTY configuration; later macro steps change nothing
+         in c, whereas in wrap c h the root h is still active and the next stabilisation re-enters r by default
+         entry.  Hence wrap_alive in C17_wrap_run; after such an exception the two interpreters are still related
+         (configuration [] / [h]) until the next macro step with at least one micro step.
+     (d) a root that is itself final or a history state, and the first macro step (one more micro step, one more
+         unit of fuel, `state entered h` seen by the listeners): excluded by wrap_ok / treated by C17_wrap_init.
+
+   MISSING (not attempted for lack of time): the corollary composing CopyProofs.C17_copy_structure +
+   C17_equivariance_run + C17_wrap_run for the harness host `hroot > plug`; a packaged run theorem starting from the
+   uninitialised interpreter (C17_wrap_init followed by wrap_run_gen with ft_init); wrap_ok from wf_chart_b +
+   "every name is registered" (only the checker wrap_okb is provided; c1, c2 satisfy both).  Nothing is `_partial`.
+
+   NON-VACUITY  Module WrapExample: c1 = r > {a, b > {b1, b2}} with transitions from / to the root, an external
+     self-loop and internal transitions on the root; c2 = orthogonal variant with a deep history state, guards,
+     actions sending internal events, entry / exit code, invariants (C17_wrap_hypotheses_satisfiable,
+     C17_wrap_example_by_theorem, C17_wrap_example_with_error, C17_wrap_example_by_computation,
+     C17_wrap_example_shape, C17_wrap_init_hypotheses_satisfiable, C17_wrap_init_example_by_computation). *)
 From Coq Require Import String Ascii List Bool ZArith Lia Permutation.
 From Sismic Require Import Base Chart Interp.
 From SismicProofs Require Import SortLib FrameLib C01Proofs C02Proofs C17Proofs.
@@ -1704,6 +1800,239 @@ Section Wrap.
         * rewrite El. change (removelast (snd o :: x :: l)) with (snd o :: removelast (x :: l)) in Hf.
           inversion Hf; assumption.
   Qed.
+
+  (* ---------------------------------------------------------------------------------------- *)
+  (* 7b. The initial macro step                                                                *)
+  (* ---------------------------------------------------------------------------------------- *)
+  Hypothesis emit_h : forall t x, emit t (MEntered h) x = (x, None).
+  Hypothesis Hr_ne : r <> "".
+
+  Definition step_h : microstep := mkMicro None None [h] [] [].
+  Definition step_r : microstep := mkMicro None None [r] [] [].
+
+  Lemma desc_w_h_K : Forall K (descendants_for c' h).
+  Proof.
+    unfold descendants_for. cbn [bfs]. rewrite children_for_w_h. cbn [app].
+    constructor; [exact Hroot_K|]. rewrite bfs_w by (constructor; [exact Hroot_K|constructor]).
+    apply bfs_K. constructor; [exact Hroot_K|constructor].
+  Qed.
+
+  Lemma truthy_r : truthy (Some r) = Some r.
+  Proof. destruct r; [congruence|reflexivity]. Qed.
+
+  Lemma css_init (i : ist) :
+    i_config i = [] -> create_stabilization_step ctx c' (Wi i) = Some (inl step_r).
+  Proof.
+    intros Hc. unfold create_stabilization_step. cbn [wrap_state i_config i_memory]. rewrite Hc.
+    unfold leaf_for. cbn [filter].
+    assert (E : existsb (fun d => mem d [h]) (descendants_for c' h) = false).
+    { apply not_true_is_false. intros H. apply existsb_exists in H. destruct H as [d [Hd Hm]].
+      pose proof desc_w_h_K as HK. rewrite Forall_forall in HK. cbn [mem] in Hm.
+      rewrite (str_eqb_neq d h (K_ne_h d (HK d Hd))) in Hm. discriminate. }
+    rewrite E. cbn [negb sort insert first_some]. unfold stab_for_leaf. rewrite state_for_w_h.
+    cbn [hstate s_kind s_initial]. rewrite truthy_r. reflexivity.
+  Qed.
+
+  Lemma apply_step_enter_h (i : ist) x tr' :
+    i_config i = [] -> i_entry i = [] -> i_idle i = [] -> i_time i = t0 ->
+    apply_step ctx X exec_code' eval_code' emit c' step_h (mkM i x tr')
+    = (mkM (Wi i) x (ObMeta (MEntered h)
+                     :: ObExec (mkCall (i_id i) CEntry (OState h) 0 None None t0 [] None None [] None) (Some [])
+                     :: tr'),
+       inl step_h).
+  Proof.
+    intros Hc He Hi Ht. unfold apply_step, step_h. cbn [ms_entered ms_exited ms_event ms_trans states_for].
+    rewrite state_for_w_h.
+    unfold bind, get, ret, mapM, iterM, enter_state, state_contract, contract, run_code, observe, modify, raise_meta.
+    cbn [m_i m_x m_tr hstate s_name s_pre s_post s_inv s_on_entry eval_conds bind ret].
+    unfold bind, get, ret.
+    destruct i as [iid iin itm imem icf ien iidl isn iiq ieq iig ictx iold].
+    cbn [i_config i_entry i_idle i_time] in Hc, He, Hi, Ht. subst icf ien iidl itm.
+    destruct iig; cbn; rewrite emit_h; cbn; reflexivity.
+  Qed.
+
+  Definition add_h (m : option macrostep) : option macrostep :=
+    match m with Some (t, steps) => Some (t, step_h :: steps) | None => None end.
+
+  Definition finish_c (res : mst * (list microstep + err)) : mst * (option macrostep + err) :=
+    match res with
+    | (s4, inl ex) =>
+        bind ctx X (check_invariants ctx X eval_code c (macro_event ex))
+          (fun _ => bind ctx X (raise_meta ctx X emit MStepEnded)
+                      (fun _ => ret ctx X (Some (i_time (m_i s4), ex)))) s4
+    | (s4, inr e) => (s4, inr e)
+    end.
+  Definition finish_w (res : mst * (list microstep + err)) : mst * (option macrostep + err) :=
+    match res with
+    | (s4, inl ex) =>
+        bind ctx X (check_invariants ctx X eval_code' c' (macro_event ex))
+          (fun _ => bind ctx X (raise_meta ctx X emit MStepEnded)
+                      (fun _ => ret ctx X (Some (i_time (m_i s4), ex)))) s4
+    | (s4, inr e) => (s4, inr e)
+    end.
+
+  Definition start_i (i : ist) : ist := set_initialized ctx true (set_sent ctx [] (set_time ctx t0 i)).
+
+  Lemma exec_first_c fuel (s0 : mst) x1 :
+    i_initialized (m_i s0) = false -> emit t0 (MStepStarted t0) (m_x s0) = (x1, None) ->
+    execute_once ctx X exec_code eval_code emit c fuel t0 s0
+    = finish_c (run_steps ctx X exec_code eval_code emit c fuel [step_r]
+                  (mkM (start_i (m_i s0)) x1 (ObMeta (MStepStarted t0) :: m_tr s0))).
+  Proof.
+    intros Hini Hem. unfold execute_once, compute_steps.
+    unfold bind at 1. unfold modify at 1. unfold bind at 1. unfold raise_meta at 1.
+    cbn [m_i m_x m_tr set_sent set_time i_time]. rewrite Hem.
+    unfold bind at 1. unfold bind at 1. unfold get at 1. cbn [m_i set_sent set_time i_initialized].
+    rewrite Hini. cbn [negb]. unfold bind at 1. unfold put at 1. rewrite Hroot. unfold ret at 1.
+    cbn [m_i m_x m_tr]. unfold bind at 1. unfold bind at 1. unfold bind at 1. cbn [ms_event step_r]. unfold ret at 1.
+    unfold bind at 1. unfold finish_c, start_i.
+    destruct (run_steps ctx X exec_code eval_code emit c fuel _ _) as [s4 [ex|e]]; [|reflexivity].
+    unfold bind at 1. unfold get at 1. unfold ret at 1. reflexivity.
+  Qed.
+
+  Lemma exec_first_w fuel (s0 : mst) x1 :
+    i_initialized (m_i s0) = false -> emit t0 (MStepStarted t0) (m_x s0) = (x1, None) ->
+    execute_once ctx X exec_code' eval_code' emit c' fuel t0 s0
+    = finish_w (run_steps ctx X exec_code' eval_code' emit c' fuel [step_h]
+                  (mkM (start_i (m_i s0)) x1 (ObMeta (MStepStarted t0) :: m_tr s0))).
+  Proof.
+    intros Hini Hem. unfold execute_once, compute_steps.
+    unfold bind at 1. unfold modify at 1. unfold bind at 1. unfold raise_meta at 1.
+    cbn [m_i m_x m_tr set_sent set_time i_time]. rewrite Hem.
+    unfold bind at 1. unfold bind at 1. unfold get at 1. cbn [m_i set_sent set_time i_initialized].
+    rewrite Hini. cbn [negb]. unfold bind at 1. unfold put at 1. change (root c') with (Some h). unfold ret at 1.
+    cbn [m_i m_x m_tr]. unfold bind at 1. unfold bind at 1. unfold bind at 1. cbn [ms_event step_h]. unfold ret at 1.
+    unfold bind at 1. unfold finish_w, start_i.
+    destruct (run_steps ctx X exec_code' eval_code' emit c' fuel _ _) as [s4 [ex|e]]; [|reflexivity].
+    unfold bind at 1. unfold get at 1. unfold ret at 1. reflexivity.
+  Qed.
+
+  Lemma bind_inl_eq {A B} (m : MM A) (f : A -> MM B) (s s1 : mst) a :
+    m s = (s1, inl a) -> bind ctx X m f s = f a s1.
+  Proof. intros H. unfold bind. rewrite H. reflexivity. Qed.
+
+  Lemma bind_inr_eq {A B} (m : MM A) (f : A -> MM B) (s s1 : mst) e :
+    m s = (s1, inr e) -> bind ctx X m f s = (s1, inr e).
+  Proof. intros H. unfold bind. rewrite H. reflexivity. Qed.
+
+  Lemma apply_step_rootin_enter step (s : mst) a :
+    In r (ms_entered step) ->
+    snd (apply_step ctx X exec_code eval_code emit c step s) = inl a ->
+    rootin (fst (apply_step ctx X exec_code eval_code emit c step s)).
+  Proof.
+    intros Hk Ha. apply snd_eq in Ha.
+    destruct (C02Proofs.apply_step_inv ctx X exec_code eval_code emit c (fun _ => True) step s _ a Ha)
+      as (ent & exi & Een & Eex & Ecfg & _).
+    unfold rootin. rewrite Ecfg. apply states_for_names in Een. apply In_enter_all_r. rewrite Een. exact Hk.
+  Qed.
+
+  Lemma finish_eqv ex (s4 : mst) :
+    inv s4 -> rootin s4 ->
+    finish_w (W s4, inl (step_h :: ex))
+    = (W (fst (finish_c (s4, inl ex))),
+       match snd (finish_c (s4, inl ex)) with inl m => inl (add_h m) | inr e => inr e end)
+    /\ inv (fst (finish_c (s4, inl ex))) /\ rootin (fst (finish_c (s4, inl ex))).
+  Proof.
+    intros Hi Hr. unfold finish_w, finish_c. cbn [macro_event step_h ms_event].
+    change (i_time (m_i (W s4))) with (i_time (m_i s4)).
+    set (mc := bind ctx X (check_invariants ctx X eval_code c (macro_event ex))
+                 (fun _ => bind ctx X (raise_meta ctx X emit MStepEnded)
+                             (fun _ => ret ctx X (Some (i_time (m_i s4), ex))))).
+    set (mw := bind ctx X (check_invariants ctx X eval_code' c' (macro_event ex))
+                 (fun _ => bind ctx X (raise_meta ctx X emit MStepEnded)
+                             (fun _ => ret ctx X (Some (i_time (m_i s4), mkMicro None None [h] [] [] :: ex))))).
+    change (mw (W s4) = (W (fst (mc s4)), match snd (mc s4) with inl m => inl (add_h m) | inr e => inr e end)
+            /\ inv (fst (mc s4)) /\ rootin (fst (mc s4))).
+    assert (HE : EQV (fun a' a => a' = add_h a) mw mc).
+    { unfold mw, mc. eapply eqv_bind; [apply check_invariants_eqv|]. intros _ _ _.
+      eapply eqv_bind; [apply raise_meta_eqv|]. intros _ _ _. apply eqv_ret. reflexivity. }
+    destruct (HE s4 Hi) as (E & I1 & Rr).
+    assert (Hcfg : i_config (m_i (fst (mc s4))) = i_config (m_i s4)).
+    { unfold mc, bind.
+      destruct (check_invariants ctx X eval_code c (macro_event ex) s4) as [s5 [u|e]] eqn:E5;
+        destruct (FrameLib.check_invariants_footprint ctx X eval_code c _ s4 _ _ E5) as [Hx _]; cbn [fst].
+      - destruct (raise_meta ctx X emit MStepEnded s5) as [s6 [u6|e6]] eqn:E6; unfold ret; cbn [fst];
+          rewrite (FrameLib.raise_meta_footprint ctx X emit _ s5 _ _ E6), Hx; reflexivity.
+      - rewrite Hx. reflexivity. }
+    clearbody mc mw. remember (mc s4) as p eqn:Ep. destruct p as [s5 rc]. cbn [fst snd] in *.
+    split; [|split; [exact I1|unfold rootin; rewrite Hcfg; exact Hr]].
+    destruct (mw (W s4)) as [sw rw]. cbn [fst snd] in E, Rr. subst sw. f_equal.
+    destruct rw as [mw'|ew], rc as [mc'|ec]; cbn [rel_res] in Rr; try contradiction.
+    - rewrite Rr. reflexivity.
+    - rewrite Rr. reflexivity.
+  Qed.
+
+  Lemma stabilize_first fuel (s2 : mst) :
+    i_config (m_i s2) = [] ->
+    stabilize ctx X exec_code' eval_code' emit c' (S fuel) (W s2)
+    = bind ctx X (apply_step ctx X exec_code' eval_code' emit c' step_r)
+        (fun a => bind ctx X (stabilize ctx X exec_code' eval_code' emit c' fuel) (fun rr => ret ctx X (a :: rr)))
+        (W s2).
+  Proof.
+    intros Hc. cbn [stabilize]. unfold bind at 1. unfold get at 1. unfold W at 1 2. cbn [m_i].
+    rewrite css_init by exact Hc. reflexivity.
+  Qed.
+
+  Theorem wrap_init_gen fuel (s0 : mst) tr0' m :
+    i_initialized (m_i s0) = false -> i_config (m_i s0) = [] -> i_entry (m_i s0) = [] -> i_idle (m_i s0) = [] ->
+    memK (i_memory (m_i s0)) ->
+    Tdom (ObMeta (MStepStarted t0) :: m_tr s0) ->
+    ft (ObMeta (MStepStarted t0) :: m_tr s0)
+    = ObMeta (MEntered h)
+      :: ObExec (mkCall (i_id (m_i s0)) CEntry (OState h) 0 None None t0 [] None None [] None) (Some [])
+      :: ObMeta (MStepStarted t0) :: tr0' ->
+    snd (execute_once ctx X exec_code eval_code emit c fuel t0 s0) = inl m ->
+    execute_once ctx X exec_code' eval_code' emit c' (S fuel) t0 (mkM (m_i s0) (m_x s0) tr0')
+    = (W (fst (execute_once ctx X exec_code eval_code emit c fuel t0 s0)), inl (add_h m))
+    /\ inv (fst (execute_once ctx X exec_code eval_code emit c fuel t0 s0))
+    /\ rootin (fst (execute_once ctx X exec_code eval_code emit c fuel t0 s0)).
+  Proof.
+    intros Hini Hcfg Hen Hid Hmem HT Hft Hsucc.
+    destruct (emit t0 (MStepStarted t0) (m_x s0)) as [x1 [e|]] eqn:Hem.
+    { exfalso. revert Hsucc. unfold execute_once. unfold bind at 1. unfold modify at 1. unfold bind at 1.
+      unfold raise_meta at 1. cbn [m_i m_x m_tr set_sent set_time i_time]. rewrite Hem. cbn [snd]. discriminate. }
+    rewrite (exec_first_c fuel s0 x1 Hini Hem) in *.
+    rewrite (exec_first_w (S fuel) (mkM (m_i s0) (m_x s0) tr0') x1 Hini Hem). cbn [m_i m_x m_tr].
+    set (s2 := mkM (start_i (m_i s0)) x1 (ObMeta (MStepStarted t0) :: m_tr s0)) in *.
+    assert (Hi2 : inv s2).
+    { split; [|exact HT]. unfold s2, start_i. cbn [m_i]. split; [reflexivity|].
+      cbn [set_initialized set_sent set_time i_config i_memory]. rewrite Hcfg. split; [constructor|exact Hmem]. }
+    assert (Hc2 : i_config (m_i s2) = []) by (unfold s2, start_i; cbn; exact Hcfg).
+    (* wrap: the first micro step enters h *)
+    cbn [run_steps] in *.
+    assert (EW : apply_step ctx X exec_code' eval_code' emit c' step_h
+                   (mkM (start_i (m_i s0)) x1 (ObMeta (MStepStarted t0) :: tr0')) = (W s2, inl step_h)).
+    { rewrite apply_step_enter_h; try (unfold start_i; cbn; assumption); [|reflexivity].
+      unfold W, s2. cbn [m_i m_x m_tr]. rewrite Hft. reflexivity. }
+    rewrite (bind_inl_eq _ _ _ _ _ EW).
+    (* both: the step entering r *)
+    assert (Hok_r : step_ok step_r) by (split; [constructor; [exact Hroot_K|constructor]|constructor]).
+    destruct (apply_step_eqv step_r Hok_r s2 Hi2) as (E3 & I3 & R3).
+    destruct (apply_step ctx X exec_code eval_code emit c step_r s2) as [s3 [a|e]] eqn:Ec3.
+    2:{ exfalso. rewrite (bind_inr_eq _ _ _ _ _ Ec3) in Hsucc. cbn in Hsucc. discriminate. }
+    assert (Hr3 : rootin s3).
+    { pose proof (apply_step_rootin_enter step_r s2 a) as G. rewrite Ec3 in G. apply G; [left; reflexivity|reflexivity]. }
+    cbn [fst snd] in E3, I3, R3.
+    destruct (apply_step ctx X exec_code' eval_code' emit c' step_r (W s2)) as [s3' [a'|e']] eqn:Ew3;
+      cbn [fst snd rel_res] in E3, R3; [|contradiction]. subst s3' a'.
+    rewrite (bind_inl_eq _ _ _ _ _ Ec3) in *.
+    (* both: the stabilisation after entering r *)
+    destruct (stabilize_eqvr fuel s3 I3 Hr3) as (E4 & I4 & R4 & P4).
+    destruct (stabilize ctx X exec_code eval_code emit c fuel s3) as [s4 [ss|e]] eqn:Ec4.
+    2:{ exfalso. rewrite (bind_inr_eq _ _ _ _ _ Ec4) in Hsucc. cbn in Hsucc. discriminate. }
+    cbn [fst snd] in E4, I4, R4, P4.
+    destruct (stabilize ctx X exec_code' eval_code' emit c' fuel (W s3)) as [s4' [ss'|e']] eqn:Ew4;
+      cbn [fst snd rel_res] in E4, R4; [|contradiction]. subst s4' ss'.
+    rewrite (bind_inl_eq _ _ _ _ _ Ec4) in *.
+    assert (EWs : stabilize ctx X exec_code' eval_code' emit c' (S fuel) (W s2) = (W s4, inl (a :: ss))).
+    { rewrite (stabilize_first fuel s2 Hc2). rewrite (bind_inl_eq _ _ _ _ _ Ew3).
+      rewrite (bind_inl_eq _ _ _ _ _ Ew4). reflexivity. }
+    rewrite (bind_inl_eq _ _ _ _ _ EWs).
+    cbv beta iota delta [bind ret] in Hsucc. cbv beta iota delta [bind ret].
+    change ((a :: ss) ++ []) with (a :: ss ++ []).
+    destruct (finish_eqv (a :: ss ++ []) s4 I4 (P4 ss eq_refl)) as (EF & IF & RF).
+    rewrite EF, Hsucc. split; [reflexivity|]. split; assumption.
+  Qed.
 End Wrap.
 
 (* ------------------------------------------------------------------------------------------ *)
@@ -1933,6 +2262,80 @@ Section Main.
 End Main.
 
 (* ------------------------------------------------------------------------------------------ *)
+(* 9b. The initial macro step and runs from the initial state                                  *)
+(* ------------------------------------------------------------------------------------------ *)
+(* trace correspondence with `extra` buried below the observations made after `old` *)
+Definition ft_init {ctx} (h : name) (extra old : list (obs ctx)) (tr : list (obs ctx)) : list (obs ctx) :=
+  map (wrap_obs h) (firstn (length tr - length old) tr) ++ extra
+  ++ map (wrap_obs h) (skipn (length tr - length old) tr).
+
+Lemma ft_init_app {ctx} h (extra old T : list (obs ctx)) :
+  ft_init h extra old (T ++ old) = map (wrap_obs h) T ++ extra ++ map (wrap_obs h) old.
+Proof.
+  unfold ft_init. rewrite app_length. replace (length T + length old - length old) with (length T) by lia.
+  rewrite firstn_app, firstn_all, Nat.sub_diag. cbn [firstn]. rewrite app_nil_r.
+  rewrite skipn_app, skipn_all, Nat.sub_diag. cbn [skipn app]. reflexivity.
+Qed.
+
+Lemma ft_init_cons {ctx} h (extra old : list (obs ctx)) o tr :
+  (exists T, tr = T ++ old) -> ft_init h extra old (o :: tr) = wrap_obs h o :: ft_init h extra old tr.
+Proof.
+  intros [T ->]. change (o :: T ++ old) with ((o :: T) ++ old). rewrite !ft_init_app. reflexivity.
+Qed.
+
+Section Init.
+  Variable c : chart.
+  Variables r h : name.
+  Hypothesis Hok : wrap_ok c r h.
+  Hypothesis Hr_ne : r <> "".
+  Variable ctx : Type.
+  Variable X : Type.
+  Variables exec_code exec_code' : call ctx -> ctx -> option (ctx * list event).
+  Variables eval_code eval_code' : call ctx -> ctx -> option bool.
+  Variable emit : Z -> meta -> X -> X * option err.
+  Hypothesis exec_indep : forall cl x, exec_code' (wrap_call h cl) x = exec_code cl x.
+  Hypothesis eval_indep : forall cl x, eval_code' (wrap_call h cl) x = eval_code cl x.
+  (* the listeners do not react to the entry of h *)
+  Hypothesis emit_h : forall t x, emit t (MEntered h) x = (x, None).
+
+  (* the two observations wrap c h makes when it enters h *)
+  Definition init_extra (id : nat) (now : Z) : list (obs ctx) :=
+    [ObMeta (MEntered h); ObExec (mkCall id CEntry (OState h) 0 None None now [] None None [] None) (Some [])].
+
+  (* the first execute_once (uninitialised interpreter, c's step returns normally): wrap c h performs the micro
+     step [enter h] followed by exactly the micro steps of c; it needs one more unit of stabilisation fuel *)
+  Theorem C17_wrap_init fuel now (s0 : mstate ctx X) m :
+    i_initialized (m_i s0) = false -> i_config (m_i s0) = [] -> i_entry (m_i s0) = [] -> i_idle (m_i s0) = [] ->
+    memK c (i_memory (m_i s0)) ->
+    snd (execute_once ctx X exec_code eval_code emit c fuel now s0) = inl m ->
+    let s1 := fst (execute_once ctx X exec_code eval_code emit c fuel now s0) in
+    exists T,
+      m_tr s1 = T ++ ObMeta (MStepStarted now) :: m_tr s0
+      /\ execute_once ctx X exec_code' eval_code' emit (wrap c h) (S fuel) now
+           (mkM (m_i s0) (m_x s0) (map (wrap_obs h) (m_tr s0)))
+         = (mkM (wrap_state h now (m_i s1)) (m_x s1)
+                (map (wrap_obs h) T ++ init_extra (i_id (m_i s0)) now
+                 ++ ObMeta (MStepStarted now) :: map (wrap_obs h) (m_tr s0)),
+            inl (add_h h m))
+      /\ wrap_inv c ctx X s1 /\ root_active r ctx X s1.
+  Proof.
+    intros Hini Hcfg Hen Hid Hmem Hsucc s1.
+    set (old := ObMeta (MStepStarted now) :: m_tr s0).
+    set (extra := init_extra (i_id (m_i s0)) now).
+    destruct Hok as (H1 & H2 & H3 & H4 & H5 & H6 & H7 & H8 & H9 & H10 & H11 & H12 & H13 & H14 & H15 & H16 & H17 & H18 & H19).
+    destruct (wrap_init_gen c r h H1 H2 H3 H4 H5 H6 H7 H8 H9 H10 H11 H12 H13 H14 H15 H17 H18 H19
+                ctx X exec_code exec_code' eval_code eval_code' emit exec_indep eval_indep now
+                (ft_init h extra old) (fun tr => exists T, tr = T ++ old)
+                (fun o tr Ht => ft_init_cons h extra old o tr Ht)
+                (fun o tr Ht => match Ht with ex_intro _ T E => ex_intro _ (o :: T) (f_equal (cons o) E) end)
+                emit_h Hr_ne fuel s0 (map (wrap_obs h) (m_tr s0)) m Hini Hcfg Hen Hid Hmem
+                (ex_intro _ [] eq_refl) (ft_init_app h extra old []) Hsucc) as (E & [Ii [T HT]] & Hr).
+    fold s1 in E, Ii, HT, Hr. exists T. split; [exact HT|]. split; [|split; [exact Ii|exact Hr]].
+    rewrite E. unfold W. rewrite HT, ft_init_app. reflexivity.
+  Qed.
+End Init.
+
+(* ------------------------------------------------------------------------------------------ *)
 (* 10. Non-vacuity and the hypotheses that cannot be dropped                                   *)
 (* ------------------------------------------------------------------------------------------ *)
 Module WrapExample.
@@ -2016,39 +2419,50 @@ Module WrapExample.
   Qed.
 
   (* the hypotheses of C17_wrap_step / C17_wrap_run are satisfiable *)
+  Lemma exec0_indep : forall cl x, exec0 (wrap_call "H" cl) x = exec0 cl x.
+  Proof. reflexivity. Qed.
+  Lemma eval0_indep : forall cl x, eval0 (wrap_call "H" cl) x = eval0 cl x.
+  Proof. reflexivity. Qed.
+  Lemma c2_inv : wrap_inv c2 nat nat (s1 c2).
+  Proof. apply invi_b_sound; vm_compute; reflexivity. Qed.
+  Lemma c2_root : root_active "r" nat nat (s1 c2).
+  Proof. vm_compute. tauto. Qed.
+  Lemma c2_errfree : Forall is_inl (removelast (snd (run_ops nat nat exec0 eval0 emit0 c2 20 ops2 (s1 c2)))).
+  Proof. vm_compute. repeat constructor. Qed.
+  Lemma c2_alive : alive c2 "r" nat nat exec0 eval0 emit0 20 ops2x (s1 c2).
+  Proof. vm_compute. tauto. Qed.
+
   Example C17_wrap_hypotheses_satisfiable :
     wrap_ok c2 "r" "H"
     /\ (forall cl x, exec0 (wrap_call "H" cl) x = exec0 cl x)
     /\ (forall cl x, eval0 (wrap_call "H" cl) x = eval0 cl x)
     /\ wrap_inv c2 nat nat (s1 c2) /\ root_active "r" nat nat (s1 c2)
-    /\ Forall is_inl (removelast (snd (run c2 ops2 (s1 c2)))).
+    /\ Forall is_inl (removelast (snd (run_ops nat nat exec0 eval0 emit0 c2 20 ops2 (s1 c2))))
+    /\ wrap_alive c2 "r" nat nat exec0 eval0 emit0 20 ops2x (s1 c2).
   Proof.
-    split; [exact c2_ok|]. split; [reflexivity|]. split; [reflexivity|].
-    split; [apply invi_b_sound; vm_compute; reflexivity|].
-    split; [vm_compute; tauto|].
-    vm_compute. repeat constructor.
+    exact (conj c2_ok (conj exec0_indep (conj eval0_indep (conj c2_inv (conj c2_root (conj c2_errfree c2_alive)))))).
   Qed.
 
-  (* the run theorem applied to the instances ... *)
+  (* the run theorems applied to the instance: an error-free run ... *)
   Example C17_wrap_example_by_theorem :
-    run (wrap c2 "H") ops2 (wrap_mstate "H" 0 (s1 c2)) = image (run c2 ops2 (s1 c2)).
+    run_ops nat nat exec0 eval0 emit0 (wrap c2 "H") 20 ops2 (wrap_mstate "H" 0 (s1 c2))
+    = (wrap_mstate "H" 0 (fst (run_ops nat nat exec0 eval0 emit0 c2 20 ops2 (s1 c2))),
+       snd (run_ops nat nat exec0 eval0 emit0 c2 20 ops2 (s1 c2))).
   Proof.
-    destruct C17_wrap_hypotheses_satisfiable as (Hok & He & Hv & Hi & Hr & Hf).
-    unfold run in Hf. unfold run, image.
-    apply (C17_wrap_run_errfree c2 "r" "H" Hok nat nat exec0 exec0 eval0 eval0 emit0 He Hv 0%Z 20 ops2 (s1 c2) Hi Hr Hf).
+    exact (proj1 (C17_wrap_run_errfree c2 "r" "H" c2_ok nat nat exec0 exec0 eval0 eval0 emit0 exec0_indep eval0_indep
+                    0%Z 20 ops2 (s1 c2) c2_inv c2_root c2_errfree)).
   Qed.
 
-  (* a run with an error in the middle: C17_wrap_run with the root active at every step *)
+  (* ... and a run with an error in the middle (the root is active at every step: C17_wrap_run) *)
   Example C17_wrap_example_with_error :
-    wrap_alive c2 "r" nat nat exec0 eval0 emit0 20 ops2x (s1 c2)
-    /\ nth 21 (snd (run c2 ops2x (s1 c2))) (inl None) = inr EConflict
-    /\ run (wrap c2 "H") ops2x (wrap_mstate "H" 0 (s1 c2)) = image (run c2 ops2x (s1 c2)).
+    nth 21 (snd (run c2 ops2x (s1 c2))) (inl None) = inr EConflict
+    /\ run_ops nat nat exec0 eval0 emit0 (wrap c2 "H") 20 ops2x (wrap_mstate "H" 0 (s1 c2))
+       = (wrap_mstate "H" 0 (fst (run_ops nat nat exec0 eval0 emit0 c2 20 ops2x (s1 c2))),
+          snd (run_ops nat nat exec0 eval0 emit0 c2 20 ops2x (s1 c2))).
   Proof.
-    assert (Ha : wrap_alive c2 "r" nat nat exec0 eval0 emit0 20 ops2x (s1 c2)) by (vm_compute; tauto).
-    split; [exact Ha|]. split; [vm_compute; reflexivity|].
-    destruct C17_wrap_hypotheses_satisfiable as (Hok & He & Hv & Hi & Hr & Hf).
-    unfold run, image.
-    apply (C17_wrap_run c2 "r" "H" Hok nat nat exec0 exec0 eval0 eval0 emit0 He Hv 0%Z 20 ops2x (s1 c2) Hi Ha).
+    split; [vm_compute; reflexivity|].
+    exact (proj1 (C17_wrap_run c2 "r" "H" c2_ok nat nat exec0 exec0 eval0 eval0 emit0 exec0_indep eval0_indep
+                    0%Z 20 ops2x (s1 c2) c2_inv c2_alive)).
   Qed.
 
   (* ... and the same equations checked by evaluating both runs (independent of the theorem) *)
@@ -2078,6 +2492,43 @@ Module WrapExample.
         [([], [])]; [([], [])];
         [] ].
   Proof. vm_compute. reflexivity. Qed.
+
+  (* the initial macro step: listeners that do not react to the entry of "H" *)
+  Definition emit1 (t : Z) (m : meta) (x : nat) : nat * option err :=
+    match m with
+    | MEntered n => if String.eqb n "H" then (x, None) else (S x, None)
+    | _ => (S x, None)
+    end.
+  Lemma emit1_h : forall t x, emit1 t (MEntered "H") x = (x, None).
+  Proof. reflexivity. Qed.
+
+  Definition m0 : option macrostep :=
+    Some (0%Z, [mkMicro None None ["r"] [] []; mkMicro None None ["a"] [] []]).
+  Lemma c2_first : snd (execute_once nat nat exec0 eval0 emit1 c2 20 0 s0) = inl m0.
+  Proof. vm_compute. reflexivity. Qed.
+
+  (* the hypotheses of C17_wrap_init are satisfiable *)
+  Example C17_wrap_init_hypotheses_satisfiable :
+    wrap_ok c2 "r" "H" /\ "r" <> ""
+    /\ (forall t x, emit1 t (MEntered "H") x = (x, None))
+    /\ i_initialized (m_i s0) = false /\ i_config (m_i s0) = [] /\ i_entry (m_i s0) = [] /\ i_idle (m_i s0) = []
+    /\ memK c2 (i_memory (m_i s0))
+    /\ snd (execute_once nat nat exec0 eval0 emit1 c2 20 0 s0) = inl m0.
+  Proof.
+    split; [exact c2_ok|]. split; [discriminate|]. split; [exact emit1_h|].
+    repeat (split; [reflexivity|]). split; [constructor|exact c2_first].
+  Qed.
+
+  (* its conclusion on the instance, checked by evaluating both first steps *)
+  Example C17_wrap_init_example_by_computation :
+    snd (execute_once nat nat exec0 eval0 emit1 (wrap c2 "H") 21 0 s0) = inl (add_h "H" m0)
+    /\ m_i (fst (execute_once nat nat exec0 eval0 emit1 (wrap c2 "H") 21 0 s0))
+       = wrap_state "H" 0 (m_i (fst (execute_once nat nat exec0 eval0 emit1 c2 20 0 s0)))
+    /\ m_x (fst (execute_once nat nat exec0 eval0 emit1 (wrap c2 "H") 21 0 s0))
+       = m_x (fst (execute_once nat nat exec0 eval0 emit1 c2 20 0 s0))
+    /\ length (m_tr (fst (execute_once nat nat exec0 eval0 emit1 (wrap c2 "H") 21 0 s0)))
+       = 2 + length (m_tr (fst (execute_once nat nat exec0 eval0 emit1 c2 20 0 s0))).
+  Proof. repeat split; vm_compute; reflexivity. Qed.
 End WrapExample.
 
 (* ------------------------------------------------------------------------------------------ *)
@@ -2136,8 +2587,9 @@ Module WrapRefutations.
 
   (* (b) the side condition "the root of c is active" of the run theorem: an exception in the middle of a
      step that leaves and re-enters the root (here: the action of an external self-loop on the root fails)
-     leaves c with an EMPTY configuration -- the next execute_once does nothing -- whereas in wrap c h the
-     new root is still active and the next execute_once re-enters r by default entry *)
+     leaves c with an EMPTY configuration -- a later macro step (here: an event nobody listens to is
+     consumed) changes nothing -- whereas in wrap c h the new root is still active and the stabilisation
+     at the end of that macro step re-enters r and a by default entry *)
   Definition c_loop : chart :=
     mkChart "loop" None None
       [bst "r" KCompound (Some "a"); bst "a" KBasic None]
@@ -2147,7 +2599,7 @@ Module WrapRefutations.
   Definition exec_boom (cl : call nat) (x : nat) : option (nat * list event) :=
     match cl_code cl with Some "boom" => None | _ => Some (S x, []) end.
   Definition runb (c : chart) ops s := run_ops nat nat exec_boom eval0 emit0 c 20 ops s.
-  Definition loop_ops := [OpQueue (ev "loop"); OpStep 1; OpStep 2].
+  Definition loop_ops := [OpQueue (ev "loop"); OpStep 1; OpQueue (ev "zzz"); OpStep 2].
 
   Theorem C17_wrap_run_root_active_needed :
     wrap_ok c_loop "r" "H"
@@ -2155,13 +2607,27 @@ Module WrapRefutations.
     /\ wrap_inv c_loop nat nat (fst (runb c_loop [OpStep 0] s0))
     /\ root_active "r" nat nat (fst (runb c_loop [OpStep 0] s0))
     /\ snd (runb c_loop loop_ops (fst (runb c_loop [OpStep 0] s0)))
-       = [inr (ECode CAction (OTrans 0) 0); inl None]
+       = [inr (ECode CAction (OTrans 0) 0); inl (Some (2%Z, [mkMicro (Some (ev "zzz")) None [] [] []]))]
+    /\ i_config (m_i (fst (runb c_loop loop_ops (fst (runb c_loop [OpStep 0] s0))))) = []
     /\ shape (snd (runb (wrap c_loop "H") loop_ops (wrap_mstate "H" 0 (fst (runb c_loop [OpStep 0] s0)))))
-       = [[]; [(["r"], []); (["a"], [])]].
+       = [[]; [([], []); (["r"], []); (["a"], [])]].
   Proof.
     split; [apply wrap_okb_sound; vm_compute; reflexivity|]. split; [reflexivity|].
     split; [apply invi_b_sound; vm_compute; reflexivity|]. split; [vm_compute; tauto|].
-    split; vm_compute; reflexivity.
+    split; [vm_compute; reflexivity|]. split; vm_compute; reflexivity.
   Qed.
 End WrapRefutations.
 
+(* PRINT-ASSUMPTIONS *)
+Print Assumptions wrap_okb_sound.
+Print Assumptions C17_wrap_step.
+Print Assumptions C17_wrap_queue.
+Print Assumptions C17_wrap_run.
+Print Assumptions C17_wrap_run_errfree.
+Print Assumptions C17_wrap_init.
+Print Assumptions WrapExample.C17_wrap_hypotheses_satisfiable.
+Print Assumptions WrapExample.C17_wrap_example_by_theorem.
+Print Assumptions WrapExample.C17_wrap_example_with_error.
+Print Assumptions WrapExample.C17_wrap_init_hypotheses_satisfiable.
+Print Assumptions WrapRefutations.C17_wrap_step_final_child_refuted.
+Print Assumptions WrapRefutations.C17_wrap_run_root_active_needed.
